@@ -36,7 +36,10 @@ var props = map[string]propCfg{
 		Modules: []string{"fc", "pkg/sys"},
 		Decided: []string{
 			"every scanner / tokenizer loop of wrapper.go terminates (variant) and makes progress on every byte string; token extents stay inside the buffer",
+			"output discipline of transpileOne: a normal return for X.fo means gen_X.go holds the complete emitted text; any abnormal termination (panic, or the deferred OnParseError diagnostic + exit 1) leaves the file system untouched; a .foi argument writes nothing",
+			"closed-world scan: no function of fc or pkg/* other than transpileOne (through sys.WriteFile) writes, creates, renames or removes files",
 		},
+		Scans: []func(*run){scanFsWrites},
 		NotDecided: []string{"termination of the recursive-descent parser and of type inference (two known non-terminating inputs, DESIGN §6)"},
 	},
 	"C15": {
